@@ -994,6 +994,26 @@ func runC16Endorse(c *Ctx, fs *c16FS) {
 			}
 		}
 	}
+	// ---- (2b) certificate-table entries whose first / last byte is one a text reader would strip or stop at
+	//      (the entry is the tail of the raw quote formats: ASCII white space, NUL, 0xff), every format that can
+	//      carry one ----
+	for _, bl := range [][]byte{[]byte("LOCAL-CERT-TABLE-ENTRY\n"), []byte("LOCAL-CERT-TABLE-ENTRY "), []byte("LOCAL-CERT-TABLE-ENTRY\r\n"),
+		[]byte("\tLOCAL-CERT-TABLE-ENTRY\t"), []byte("LOCAL-CERT-TABLE-ENTRY\x0b"), []byte("LOCAL-CERT-TABLE-ENTRY\x0c"), []byte("\nLOCAL-CERT-TABLE-ENTRY"),
+		[]byte("LOCAL-CERT-TABLE-ENTRY\x00"), []byte("LOCAL-CERT-TABLE-ENTRY\xff"), []byte("\x00LOCAL-CERT-TABLE-ENTRY"), []byte(" "), []byte("\n")} {
+		saved := run.blob
+		run.blob, run.qcache, run.teeOf = bl, map[string][]byte{}, map[string]string{}
+		for _, q := range allQuotes {
+			if q.kind != c16Blob {
+				continue
+			}
+			for _, g := range getters[:2] {
+				run.run(c16Case{log: c16LogSpec{state: "none"}, mfr: google, quote: q, prov: "nil", getter: g, reader: true}, m0, p0)
+				run.run(c16Case{log: c16LogSpec{state: "none"}, mfr: google, quote: c16QuoteSpec{"absent", 0}, prov: "q", provQ: q, getter: g, reader: true}, m0, p0)
+			}
+		}
+		c.Count("blob-boundary-bytes")
+		run.blob, run.qcache, run.teeOf = saved, map[string][]byte{}, map[string]string{}
+	}
 	// ---- (3) every event-log state x manufacturer filter x three quotes x getter x force ----
 	var allLogs []c16LogSpec
 	allLogs = append(allLogs, c16LogSpec{state: "none"}, c16LogSpec{state: "unreadable"}, c16LogSpec{state: "garbage"}, c16LogSpec{state: "parsed"})
